@@ -79,6 +79,24 @@ theorem disabled_not_called (env : Env) (w : W) (t : Nat) (o n : Option Row) (h 
 example : (List.replicate 3 (Op.dis 0) ++ List.replicate 2 (Op.ena 0)).foldl (swCount 0) 0 = 1 ∧
     (List.replicate 3 (Op.dis 0) ++ List.replicate 3 (Op.ena 0)).foldl (swCount 0) 0 = 0 := by decide
 
+/-- `DoWithoutTriggers(tables, block)` as the property requires it: each listed table disabled
+(a table listed twice: twice), the block, each listed table enabled again — whatever the block
+did, as long as its own switches are balanced, and however it ended (the enables are not
+conditional on how the block is left): every counter is back where it was, … -/
+theorem dowithout_restores (s : St) (tables : List Nat) (body : List Op) (t : Nat)
+    (hbody : ∀ c, body.foldl (swCount t) c = c) :
+    (run s (tables.map Op.dis ++ body ++ tables.map Op.ena)).env.dis t = s.env.dis t :=
+  without_restores s tables body t hbody
+
+/-- … and inside the block the trigger of every listed table is disabled. -/
+theorem dowithout_inside (s : St) (tables : List Nat) (t : Nat) (ht : t ∈ tables) :
+    (run s (tables.map Op.dis)).env.dis t ≠ 0 :=
+  without_inside s tables t ht
+
+-- a body with balanced switches (a nested DoWithoutTriggers of the same table) and row operations
+example : ∀ c, ([Op.dis 0, Op.out 0 [[1]], Op.ena 0] : List Op).foldl (swCount 0) c = c := by
+  intro c; simp [swCount]
+
 /-- (G) in today's `tran.go` the trigger call at the end of `Output`, `Delete` and `update` runs
 under recover + Abort, as the model assumes. Fails on a tree without the fix for finding 24. -/
 theorem gen_trigger_protected :
